@@ -889,6 +889,13 @@ func (e *SpecEnv) call(x *ECall) Val {
 		v := e.eval(x.Args[0])
 		k := HeapKey{"CH$closed", "(Array Int Bool)"}
 		return boolVal(sx("select", e.heapRead(k), v.s()))
+	case "calls":
+		// calls(name): how many calls of the named function / method this execution path has made so far
+		id2, ok := x.Args[0].(*EIdent)
+		if !ok || e.st == nil {
+			sfail("calls(name) needs a function name")
+		}
+		return Val{T: MathInt, C: []string{fmt.Sprintf("%d", e.st.callN[id2.Name])}}
 	case "sent", "recvd":
 		// sent(ch) / recvd(ch): number of completed sends / receives on the channel (message log model)
 		v := e.eval(x.Args[0])
